@@ -204,12 +204,17 @@ class MillerDomain:
         if n in ("unwrap", "expect") and a and isinstance(a[0], Adt) and a[0].variant == "Some":
             return a[0].fields[0]
         # ---- lines
+        def pair(g):
+            # the (numerator, denominator) pair: a tuple, or the crate-local two-field struct the function declares
+            out = (self.F.bodies.get(d).rec.get("output") if self.F.bodies.get(d) is not None else "") or ""
+            adt = self.F.adts.get(out)
+            if adt and len(adt.get("variants") or []) == 1:
+                return Adt(out, adt["variants"][0]["name"], [g, g])
+            return Tup([g, g])
         if role == "tangent_eval" and isinstance(a[0], Pt):
-            g = Line("tan", a[0].form)
-            return Tup([g, g])
+            return pair(Line("tan", a[0].form))
         if role == "chord_eval" and isinstance(a[0], Pt) and isinstance(a[1], Pt):
-            g = Line("line", a[0].form, a[1].form)
-            return Tup([g, g])
+            return pair(Line("line", a[0].form, a[1].form))
         if role == "tangent_step" and isinstance(a[0], Pt):
             g = Line("tan", a[0].form)
             store_through(ex, args[0], Pt(pscale(a[0].form, 2)))
@@ -221,6 +226,10 @@ class MillerDomain:
         if role == "sparse":
             ls = [x for x in a if isinstance(x, Line)]
             if ls and all(x is ls[0] or (x.kind, x.T, x.X) == (ls[0].kind, ls[0].T, ls[0].X) for x in ls):
+                out = (self.F.bodies.get(d).rec.get("output") if self.F.bodies.get(d) is not None else "") or ""
+                adt = self.F.adts.get(out)
+                if adt and len(adt.get("variants") or []) == 1 and len(adt["variants"][0]["fields"]) == 1:
+                    return Adt(out, adt["variants"][0]["name"], [ls[0]])       # a newtype around the line value
                 return ls[0]
             return TOP
         # ---- accumulators
@@ -232,9 +241,14 @@ class MillerDomain:
             if a[0].tail:
                 self.err(term, "squaring after a Frobenius line")
             return Acc(a[0].n * 2, True, a[0].tail)
+        local_struct = lambda v: isinstance(v, Adt) and isinstance(v.name, str) and v.name in self.F.adts
+        if n in ("mul_assign", "mul", "squared") and a and local_struct(a[0]):
+            return NotImplemented          # an operation of a crate-local wrapper type (a numerator / denominator pair): analysed in place
         if n == "mul_assign" and len(a) == 2:
             store_through(ex, args[0], self.mul_line(term, a[0], a[1]))
             return Tup([])
+        if n == "mul" and len(a) == 2 and isinstance(a[0], Acc) and isinstance(a[1], Line):
+            return self.mul_line(term, a[0], a[1])
         if n in ("mul_015",) and len(a) == 2:
             return self.mul_line(term, a[0], a[1])
         if n == "inverse" and len(a) == 1 and isinstance(a[0], Acc):
